@@ -23,7 +23,7 @@ SKIP = "not (test(/pty_task/) | test(local_authority_recovers_from_stale_lock_un
 # which guard of System.tla speaks for which property
 GUARD_PROP = {
     "SeqIsCountOfStreamFramesBefore": "C01",
-    "ThreadOpensWithCreationOnly": "C10", "LineageIsSecondFrame": "C10",
+    "ThreadOpensWithCreationOnly": "C10", "LineageIsSecondFrame": "C10", "LineageCutWithinSource": "C10", "LineageNamesSourceMessageAtOrBeforeCut": "C10",
     "SessionStartsOnceFirst": "C07", "NothingAfterSessionEnd": "C07", "MessageIdFresh": "C07",
     "OneRunSpawnedPerMessage": "C07", "RunSpawnedOnce": "C07", "SelectionOnceAfterSpawn": "C07",
     "CompiledOnceAfterSelection": "C07", "SideEffectsAfterCompileBeforeCursorAndEnd": "C07",
@@ -105,7 +105,10 @@ def frame_event(fr):
     return {"ev": "f", "sk": sk, "s": str(fr.get("stream_id") or fr.get("session_id") or ""), "seq": int(fr.get("seq", -1)),
             "t": short, "r": str(fr.get("run_session_id") or ""), "m": str(m or ""), "j": str(fr.get("job_id") or ""),
             "st": str(fr.get("status") or "") if t == "tool_task_status" else "",
-            "tid": str(fr.get("tool_id") or "") if t == "continuity_tool_side_effects" else ""}
+            "tid": str(fr.get("tool_id") or "") if t == "continuity_tool_side_effects" else "",
+            "pt": str(fr.get("parent_thread_id") or fr.get("from_thread_id") or "") if short in ("branched", "handoff") else "",
+            "ps": int(fr.get("parent_seq") if fr.get("parent_seq") is not None else fr.get("from_seq") or 0) if short in ("branched", "handoff") else 0,
+            "pm": str(fr.get("parent_message_id") or fr.get("from_message_id") or "") if short in ("branched", "handoff") else ""}
 
 
 def project(path):
